@@ -234,7 +234,7 @@ def add_obligations(pack, ss, tier, pid='C02'):
                'md5 separates different feeds (collisions and concatenation ambiguity are not modelled); the generator reads no declared '
                'field besides those named in the contract of Model.get_md5 (v_str, v_iter, e_str, diag_eps, service v_str / sequential, '
                'exported flags, names)')
-    run_contracts(pack, [(fg_update(pid, 'f'), None, replay_fg_update('f')), (fg_update(pid, 'g'), None, replay_fg_update('g')), (refresh_inputs_arg(pid),), (find_stale(pid),), (undill(pid),), (generate_pycode_tail(pid),), (get_md5(pid), None, replay_get_md5)])
+    run_contracts(pack, [(fg_update(pid, 'f'), None, replay_fg_update('f')), (fg_update(pid, 'g'), None, replay_fg_update('g')), (refresh_inputs_arg(pid),), (find_stale(pid),), (undill(pid),), (generate_pycode_tail(pid),), (get_md5(pid), None, replay_get_md5), (refresh_inputs(pid), None, replay_refresh_inputs)])
 
 
 FSP = 'andes/core/symprocessor.py'
@@ -468,3 +468,128 @@ def replay_get_md5(obligation, model, meta):
     return {'confirmed': False, 'tried': n}
 
 replay_get_md5.real_system = True       # drives the real program on stock inputs: a crash inside repository code is a confirmed failure
+
+
+def refresh_inputs(pid):
+    """Model.refresh_inputs: the name -> value table from which the arguments of the generated functions are looked up files, under the
+    name of every numeric parameter, service (internal, external, operational) and variable, the LIVE value array of that very instance
+    (so that later in-place changes are seen), and under every config field the value the configuration holds NOW -- the config
+    dictionary is asked for with refresh=True, since its cached form may be stale (known finding F20 of C20)."""
+    from pyvc.symval import Mark
+    GROUPS = [('self.num_params', 0), ('self.services', 1), ('self.services_ext', 2), ('self.services_ops', 3), ('self.cache.all_vars', 6)]
+
+    def setitem(ex, st, args, kw, node):
+        base, sl, value = args
+        if isinstance(base, Mark) and base.kind in ('_input', '_input_z'):
+            key = ex.ev(sl, st)
+            st.ghost['stores'] = st.ghost['stores'] + [(base.kind, key, value)]
+            return None
+        return NotImplemented
+
+    def reset(v):
+        v.st.ghost['stores'] = []
+        v.st.ghost['in_iter'] = True
+        return True
+
+    def live(path):
+        E = path + '.$e'
+
+        def f(v):
+            g = v.st.ghost
+            if not g.get('in_iter'):
+                return True
+            st_ = [s_ for s_ in g['stores'] if s_[0] == '_input']
+            if len(st_) != 1:
+                return False
+            _, key, value = st_[0]
+            want_key, want_val = v.st.load(E + '.name'), v.st.load(E + '.v')
+            ok = isinstance(key, Opaque) and key.term.eq(want_key.term) and isinstance(value, Ref) and isinstance(want_val, Ref) and value.loc == want_val.loc
+            return z3.BoolVal(bool(ok))
+        return f
+
+    def as_dict(ex, st, args, kw, node):
+        st.ghost['cfg_current'] = bool(kw.get('refresh') is True)
+        n = fresh('n_config_fields', I)
+        st.assume(n >= 0)
+        return Coll('cfg', n, K)
+
+    def np_array(ex, st, args, kw, node):
+        return Mark('array-of', args[0])
+
+    def zip_flags(ex, st, args, kw, node):
+        nfl = fresh('n_flags', I)
+        st.assume(nfl >= 0)
+        return Coll('flagpairs', nfl, K)
+
+    def cfg(v):
+        g = v.st.ghost
+        if not g.get('in_iter'):
+            return True
+        st_ = [s_ for s_ in g['stores'] if s_[0] == '_input']
+        if len(st_) != 1 or not g.get('cfg_current'):
+            return False
+        _, key, value = st_[0]
+        ok = isinstance(value, Mark) and value.kind == 'array-of' and isinstance(value.data[0], Obj) and value.data[0].path == 'cfg.$e' and isinstance(key, Opaque)
+        return z3.BoolVal(bool(ok))
+    sch = {}
+    loops = {}
+    for path, lid in GROUPS:
+        sch[path] = TColl(K)
+        sch[path + '.$e.name'] = TStr()
+        sch[path + '.$e.v'] = TArr()
+        loops[lid] = Loop(inv=[('%s:the-live-value-array-of-the-instance-is-filed-under-its-own-name' % path.split('.')[-1], live(path))], assume=[('reset', reset)],
+                          frame=['$instance', path + '.$e.*'])
+    sch['self.discrete'] = TColl(K)
+    loops[4] = Loop(inv=[], frame=['$instance', '$name', '$val', 'self.discrete.$e.*', 'flagpairs.$e.*'])
+    loops[5] = Loop(inv=[], frame=['$name', '$val', 'flagpairs.$e.*'])
+    sch['flagpairs.$e.f0'] = TStr()
+    sch['flagpairs.$e.f1'] = TOpaque('FlagArray')
+    loops[7] = Loop(inv=[('config-fields-are-filed-with-their-current-values(refresh=True)', cfg)], assume=[('reset', reset)], frame=['$key', '$val', 'cfg.$e.*'])
+    c = Contract(FM, 'Model.refresh_inputs', pid=pid, params={'self': TObj()}, schema=dict(sch, **{'self.n': TInt()}),
+                 ghost_init={'stores': [], 'cfg_current': False},
+                 calls={'__setitem__': setitem, 'self.config.as_dict': as_dict, 'np.array': np_array, 'np.zeros': lambda ex, st, a, k, n: Mark('zeros'),
+                        'np.ones': lambda ex, st, a, k, n: Mark('ones'), 'np.full': lambda ex, st, a, k, n: Mark('full'),
+                        'zip': zip_flags,
+                        'self.discrete.$e.get_names': lambda ex, st, a, k, n: Mark('names'), 'self.discrete.$e.get_values': lambda ex, st, a, k, n: Mark('values')},
+                 globals_={'zip': Func('zip')},
+                 loops=loops, ensures=[], modifies=[])
+    c.properties = {'self._input': lambda ex, st: Mark('_input'), 'self._input_z': lambda ex, st: Mark('_input_z')}
+    c.merge = False
+
+    def pre_state(st):
+        st.ghost.pop('in_iter', None)
+    c.pre_state = pre_state
+    return c
+
+
+def replay_refresh_inputs(obligation=None, model=None, meta=None):
+    """native: configuration fields assigned on the live objects after loading (the documented way: ss.PQ.config.p2p = 1.0) are what the
+    generated functions receive after the next refresh"""
+    import contextlib
+    import io
+    import logging
+    import numpy as np
+    import andes
+    logging.getLogger('andes').setLevel(logging.CRITICAL)
+    with contextlib.redirect_stdout(io.StringIO()), contextlib.redirect_stderr(io.StringIO()):
+        ss = andes.load(andes.get_case('ieee14/ieee14_linetrip.xlsx'), default_config=True, no_output=True)
+        ss.PQ.config.p2p, ss.PQ.config.p2i, ss.PQ.config.p2z = 1.0, 0.0, 0.0
+        ss.PQ.config.q2q, ss.PQ.config.q2i, ss.PQ.config.q2z = 0.5, 0.25, 0.25
+        ss.Bus.config.flat_start = 1
+        ss.PFlow.run()
+        ss.TDS.init()
+    n = 0
+    for mname, m in ss.models.items():
+        if m.n == 0:
+            continue
+        for key, val in m.config.as_dict(refresh=True).items():
+            n += 1
+            got = m._input.get(key)
+            if got is None or not np.all(np.asarray(got) == val):
+                return {'confirmed': True, 'inputs': {'case': 'ieee14_linetrip', 'assigned after loading': 'PQ.config.p2p, p2i, p2z = 1, 0, 0; q2q, q2i, q2z = 0.5, 0.25, 0.25; Bus.config.flat_start = 1'},
+                        'observed': 'the argument table of %s holds %s = %r, the configuration holds %r' % (mname, key, None if got is None else np.asarray(got).tolist(), val),
+                        'native_cmd': 'contracts/C02_binding.py replay_refresh_inputs'}
+    return {'confirmed': False, 'tried': n}
+
+
+replay_refresh_inputs.real_system = True
